@@ -12,6 +12,7 @@ import (
 	"runtime/debug"
 	"strings"
 	"sync"
+	"sync/atomic"
 	"syscall"
 	"time"
 )
@@ -497,9 +498,21 @@ func (c *Conn) Done() bool {
 // ---- server side ---------------------------------------------------------------------------------
 
 type respWriter struct {
-	c   *Conn
-	hdr http.Header
+	c      *Conn
+	hdr    http.Header
+	inCall int32 // >0 while a Write or Flush is in progress (they contain scheduler points)
 }
+
+// enter/leave detect concurrent use of one ResponseWriter: net/http's is not safe for concurrent
+// Write/Flush (they share one bufio.Writer), so two calls overlapping in time are a data race in a
+// real server even though the simulated writer itself would survive it.
+func (w *respWriter) enter(what string) {
+	if atomic.AddInt32(&w.inCall, 1) > 1 {
+		w.c.n.s.addLibEvent(fmt.Sprintf("concurrent use of http.ResponseWriter: %s entered while another Write/Flush on c%d %s %s is in progress", what, w.c.ID, w.c.Method, w.c.Path))
+	}
+}
+
+func (w *respWriter) leave() { atomic.AddInt32(&w.inCall, -1) }
 
 func (w *respWriter) Header() http.Header { return w.hdr }
 
@@ -516,6 +529,8 @@ func (w *respWriter) WriteHeader(code int) {
 }
 
 func (w *respWriter) Write(p []byte) (int, error) {
+	w.enter("Write")
+	defer w.leave()
 	c := w.c
 	s := c.n.s
 	c.mu.Lock()
@@ -562,6 +577,8 @@ func (w *respWriter) Write(p []byte) (int, error) {
 }
 
 func (w *respWriter) Flush() {
+	w.enter("Flush")
+	defer w.leave()
 	c := w.c
 	s := c.n.s
 	if !s.dead.Load() {
